@@ -250,6 +250,15 @@ def table_twins(task):
                                       "replay": {"replay_module": "mc.checks.c10", "object": "cell", "seed": seed, "history": [list(o) for o in hist], "xy": [x, y],
                                                  "oracle": "birth", "expected": "equal", "actual": "differs"}})
                         continue
+                    # no mutable structure (list / dict / set attribute) of the original or of its row / table is shared
+                    owners = [cell, t] + list(t._indexes["_tmap"].values())
+                    shared = [k for k, v in vars(cc).items() if isinstance(v, (list, dict, set))
+                              and any(v is ov for o in owners for ov in vars(o).values())]
+                    if shared:
+                        fails.append({"signature": "site=Cell.clone; class=birth; symptom=shared-map-object",
+                                      "replay": {"replay_module": "mc.checks.c10", "object": "cell", "seed": seed, "history": [list(o) for o in hist], "xy": [x, y],
+                                                 "oracle": "identity", "expected": "own lists", "actual": shared}})
+                        continue
                     pre_t, pre_cell, pre_cc = snap(t), esnap(cell), esnap(cc)
                     tgt = cc if target == "clone" else cell
                     try:
